@@ -116,13 +116,40 @@ func genSysCase(r *vh.Rand) Case {
 		// deprecated top-level mute_time_intervals for the first named set, time_intervals for the rest
 		parts := strings.Split(named, "- name: ")
 		var sb strings.Builder
-		sb.WriteString("route:\n  receiver: default\n  group_by: [alertname]\n  routes:\n    - receiver: team\n      matchers: ['team=\"x\"']\n")
-		fmt.Fprintf(&sb, "      group_wait: %ds\n      group_interval: %ds\n      repeat_interval: 1s\n", in.GW, in.GI)
-		if mute != nil {
-			fmt.Fprintf(&sb, "      mute_time_intervals: [%s]\n", strings.Join(mute, ", "))
+		// Routing tree. mute_time_intervals / active_time_intervals are a route's OWN lists: dispatch.NewRoute resets
+		// both for every route (they are not inherited, unlike receiver/group_by/timers). Shapes:
+		//   flat   : root -> team route carrying the lists
+		//   inner  : root -> mid route carrying the lists -> (mid2 ->) leaf "team" WITHOUT lists: always notifies
+		//   leaf   : root -> mid route with other/no lists -> leaf "team" carrying the lists
+		shape := vh.Pick(r, []string{"flat", "flat", "inner", "leaf"})
+		lists := func(indent string, mu, ac []string) {
+			if mu != nil {
+				fmt.Fprintf(&sb, "%smute_time_intervals: [%s]\n", indent, strings.Join(mu, ", "))
+			}
+			if ac != nil {
+				fmt.Fprintf(&sb, "%sactive_time_intervals: [%s]\n", indent, strings.Join(ac, ", "))
+			}
 		}
-		if active != nil {
-			fmt.Fprintf(&sb, "      active_time_intervals: [%s]\n", strings.Join(active, ", "))
+		sb.WriteString("route:\n  receiver: default\n  group_by: [alertname]\n  routes:\n")
+		indent := "    "
+		if shape != "flat" {
+			levels := r.Range(1, 2)
+			for l := 0; l < levels; l++ {
+				fmt.Fprintf(&sb, "%s- receiver: default\n%s  matchers: ['team=\"x\"']\n", indent, indent)
+				switch {
+				case shape == "inner" && l == 0:
+					lists(indent+"  ", mute, active)
+				case shape == "leaf" && r.Bool():
+					lists(indent+"  ", active, mute) // the inner route has the lists the other way round
+				}
+				fmt.Fprintf(&sb, "%s  routes:\n", indent)
+				indent += "    "
+			}
+		}
+		fmt.Fprintf(&sb, "%s- receiver: team\n%s  matchers: ['team=~\".+\"']\n", indent, indent)
+		fmt.Fprintf(&sb, "%s  group_wait: %ds\n%s  group_interval: %ds\n%s  repeat_interval: 1s\n", indent, in.GW, indent, in.GI, indent)
+		if shape != "inner" {
+			lists(indent+"  ", mute, active)
 		}
 		sb.WriteString("receivers:\n  - name: default\n  - name: team\n")
 		sb.WriteString("mute_time_intervals:\n- name: " + parts[1])
@@ -400,6 +427,7 @@ func (rn *runner) sys(c *Case) {
 		tis          []configTI
 	}{}
 	var fail string
+	sysDepth := 0
 	if _, err := config.Load(c.YAML); err != nil {
 		rn.run.Violate("valid-spec-rejected", "config.Load rejected a well-formed configuration with time intervals: "+errClass(err), c)
 		return
@@ -424,7 +452,14 @@ func (rn *runner) sys(c *Case) {
 		for _, ti := range s.Conf.TimeIntervals {
 			conf.tis = append(conf.tis, configTI{ti.Name, ti.TimeIntervals})
 		}
+		// the route the alerts end up in is the deepest one; its OWN lists are the model's reading of the config
 		child := s.Conf.Route.Routes[0]
+		depth := 2
+		for len(child.Routes) > 0 {
+			child = child.Routes[0]
+			depth++
+		}
+		sysDepth = depth
 		conf.mute, conf.active = child.MuteTimeIntervals, child.ActiveTimeIntervals
 		// the real API, wired as app.go does: groups = the dispatcher's Groups, muted = the group marker's Muted
 		api, err := apiv2.NewAPI(s.Alerts, s.Disp.Groups, s.Marker.Muted, s.Silences, nil, promslog.NewNopLogger(), prometheus.NewRegistry())
@@ -650,6 +685,7 @@ func (rn *runner) sys(c *Case) {
 		"[\n  "+strings.Join(flushes, ";\n  ")+"]")
 	rn.run.Add(term, c, len(conf.mute)+len(conf.active) > 0 && nPass > 0 && nBlock > 0)
 	rn.run.Count("sys_cases", fmt.Sprintf("groups:%d gi:%ds both-outcomes:%v", in.groups(), in.GI, nPass > 0 && nBlock > 0))
+	rn.run.Count("sys_cases", fmt.Sprintf("route depth:%d leaf has own lists:%v", sysDepth, len(conf.mute)+len(conf.active) > 0))
 	if in.groups() == 2 {
 		rn.run.Count("sys_cases", fmt.Sprintf("two groups seen by the API in opposite muted states:%v", opposite))
 	}
